@@ -44,7 +44,7 @@ META = {
             "and reaches a date > 0; distinct by (program, options)",
     "assumptions": ["a trace line is judged only through the field names announced by the file's own header",
                     "container 0 / type 0 are the implicit Paje root"],
-    "ready": False,
+    "ready": True,
 }
 
 MPI_PLATFORMS = [
